@@ -181,6 +181,7 @@ def scenarios():
         ('select a.name, a["val"], a[\'val\']', [['k', '1'], ['m', '2']], None, ['val', 'name']),
         ('select avg(a2), variance(a2), a1 group by a1', Tn, None, None),
         ('select distinct count a1 order by a1 desc', T0, None, None),
+        ('select unnest([a1]), unnest([a2])', T0, None, None),          # parsing error raised inside the main loop
         ('select a["val"], NR', [['k', '1'], ['m', '2']], None, ['name', 'val']),
         ('select a["val"], NR', [['k', '1'], ['m', '2']], None, ['name', 'other']),          # alone: No "val" field at record 1
         ('select min(a2), max(a2), sum(a2), avg(a2), variance(a2), median(a2)', Tn, None, None),
@@ -328,7 +329,7 @@ def main(tier, seed):
     res = core.run_shards('vf.checks.c16', shards)
     return core.finish(PID, tier, seed, res, t0,
         rule='threads: all unordered pairs of 13 query kinds (same-kind pairs with different data) x every interleaving of their scheduling points (start, each get_record on input and join table, each write, finish) within the preemption bound, plan (records, bound) = %r; '
-             'histories: the complete tree of sequences of <= %d events over 19 scenarios, every node a forked live interpreter; states = interleavings + history nodes, transitions = baton grants + history edges; '
+             'histories: the complete tree of sequences of <= %d events over 20 scenarios, every node a forked live interpreter; states = interleavings + history nodes, transitions = baton grants + history edges; '
              'non-trivial = schedules with >= 2 context switches / histories of length >= 1' % (plan, depth),
         assumptions=['scheduling points are exactly the points the property names; code between them runs atomically', 'the solo outcome is computed in a fresh python subprocess per query'],
         extra={'pairs': npairs, 'interleavings': total_interleavings, 'history_depth': depth, 'plan_records_and_preemption_bound': [[n, ('all' if b is None else b)] for n, b in plan]},
